@@ -8,7 +8,7 @@ from typing import Any
 
 from .bitabs import (NeedCases, AExt, AScaled, ASumVec, PartialRaise, _Raises, fresh, AFin, fin_lift, fin_atoms, mkfin, MAX_FIN_ATOMS, ABits, ACond, AEnum, AFn, AInt, AObj, AOpq, ATable, AView, Abort, F, OB, ONE, ZERO, PathRaise,
                      cbit, _freeze)
-from .model import (BitArr, ClassInfo, ClassRef, EnumMember, FuncInfo, FuncRef, ModRef, NPArr, Rec, Unfoldable, SAFE)
+from .model import (BitArr, ClassInfo, ClassRef, EnumMember, FuncInfo, FuncRef, ModRef, NPArr, Rec, StructObj, Unfoldable, SAFE)
 
 # ------------------------------------------------------------------------------------------------ helpers
 
@@ -924,6 +924,13 @@ def getattr_(fr, base, attr, node):
         if attr == "dtype":
             return NPDType()
         return AFn(base, attr)
+    if isinstance(base, StructObj):
+        if attr == "format":
+            return base.format
+        if attr == "size":
+            r_ = struct_model(fr, "calcsize", [base.format], {}, node)
+            return r_ if r_ is not NotImplemented else I.opaque("Struct.size")
+        return AFn(base, attr)
     if isinstance(base, NPDType):
         if attr in ("str", "name", "itemsize", "kind"):
             return getattr(base, attr)
@@ -1747,6 +1754,12 @@ def method(fr, base, name, args, kw, n):
     I = fr.I
     if name == "noop" and base is None:
         return None
+    if isinstance(base, StructObj):
+        if name in ("pack", "unpack", "unpack_from"):
+            r_ = struct_model(fr, name, [base.format] + list(args), kw, n)
+            if r_ is not NotImplemented:
+                return r_
+        return I.opaque(f"Struct.{name}")
     if isinstance(base, AOpq):
         return I.opaque(f"{name}() of opaque string", notnone=True)
     if isinstance(base, AExt):
@@ -2159,6 +2172,24 @@ def bits_method(fr, b: ABits, name, args, kw, n):
         return I.opaque("list.index on abstract")
     if name in ("dot",):
         return I.opaque("numpy dot")
+    if name in ("startswith", "endswith") and b.kind == "bytes" and args:
+        # data.startswith(prefix[, start[, end]]): the octets of the window compared with the prefix (a tuple of prefixes: any of them)
+        nb = len(b.items) // 8
+        lo_, hi_, _ = slice(*([fr.cint(a) if a is not None else None for a in args[1:3]] + [None] * (2 - len(args[1:3])))).indices(nb)
+        prefixes = list(args[0]) if isinstance(args[0], tuple) else [args[0]]
+        for pf in prefixes:
+            if isinstance(pf, AOpq):
+                return I.opaque("bytes.startswith of opaque")
+            pb = fr.as_bytes_val(pf)
+            k = len(pb.items) // 8
+            if k > max(hi_ - lo_, 0):
+                continue
+            start = lo_ if name == "startswith" else hi_ - k
+            window = ABits(b.items[start * 8:(start + k) * 8], "bytes")
+            t = eq(fr, window, pb, n)
+            if t is True or (t is not False and I.decide(t, f"{name}:{n.lineno}")):
+                return True
+        return False
     if name in ("startswith", "endswith") and b.kind == "bytes":
         return I.opaque("bytes.startswith")
     raise Abort(f"bitarray/bytes method {name} at {fr.fi.module.relpath}:{n.lineno}")
@@ -2482,6 +2513,8 @@ def external(fr, name, args, kw, n):
         return I.opaque(name, notnone=True)
     if name.startswith("datetime.") or name.startswith("time.") or name.startswith("secrets.") or name.startswith("random.") or name.startswith("uuid."):
         return I.opaque("impure:" + name, notnone=True)
+    if name == "struct.Struct" and len(args) == 1 and isinstance(args[0], str):
+        return StructObj(args[0])
     if name in ("struct.unpack", "struct.unpack_from", "struct.pack", "struct.calcsize") and args and isinstance(args[0], str):
         r_ = struct_model(fr, name.split(".")[1], args, kw, n)
         if r_ is not NotImplemented:
